@@ -4,6 +4,7 @@ import Gv.Proofs.StatsSites
 import Gv.Proofs.StatsUnique
 import Gv.Proofs.StatsDiff
 import Gv.Proofs.StatsMut
+import Gv.Proofs.StatsMutAA
 import Gv.Proofs.StatsProfile
 import Gv.Proofs.StatsUniqueProf
 /-!
@@ -496,6 +497,76 @@ theorem wildcard_or_compatible_is_no_substitution (all : Byte) (ins : List Byte)
   rcases h with h | h
   · subst h; simp
   · subst h; simp
+
+/-! ## the codon-wise list (`ListMutationsComparedToReferenceSequence(alphabet, ref, true)`) -/
+
+/-- the standard genetic code is always available: the call has no third way to fail -/
+theorem standard_code_defined : geneticCode Gen.c_GENETIC_CODE_STANDARD = some Gen.standardcode := by decide
+
+/-- **no crash, and an error exactly when the Go code returns one**: different lengths, or an alphabet other than
+nucleotides (no character is refused: what is not a nucleotide code translates to `X`) -/
+theorem listMutationsVsRefAA_error_iff (alphabet : Nat) (s ref : Seq) :
+    listMutationsVsRefAA alphabet s ref = none ↔ (s.length ≠ ref.length ∨ alphabet ≠ 1) := by
+  unfold listMutationsVsRefAA
+  rw [standard_code_defined]
+  by_cases hl : s.length = ref.length
+  · by_cases ha : alphabet = 1
+    · subst ha
+      have : ((1 : Nat) != NUCLEOTIDS) = false := rfl
+      simp [hl, this]
+    · have : (alphabet != NUCLEOTIDS) = true := by
+        simp only [bne_iff_ne, ne_eq]; exact ha
+      simp [hl, this, ha]
+  · have : (s.length != ref.length) = true := by simpa using hl
+    simp [this, hl]
+
+/-- the model and the naive definition (`Spec.aaMutations`) are defined on the same inputs -/
+theorem listMutationsVsRefAA_defined_iff_spec (alphabet : Nat) (s ref : Seq) :
+    listMutationsVsRefAA alphabet s ref = none ↔ Spec.aaMutations alphabet s ref = none := by
+  rw [listMutationsVsRefAA_error_iff]
+  unfold Spec.aaMutations
+  by_cases hl : s.length = ref.length <;> by_cases ha : alphabet = 1 <;> simp [hl, ha]
+
+/-- **every reported entry is justified**: it comes from a window of columns with `3 k` reference residues to its
+left that is either a reference codon (first and last column hold a residue, three residues in all, any gaps between
+them) - then it is what the loop body writes for the translation of that codon at position `k` - or three reference
+gaps - then it is what the body writes for `-` at position `k − 1` (`Proofs.StatsMutAA.Justified`);
+`aaEntry_reports_a_difference` says what the body writes -/
+theorem listMutationsVsRefAA_entries_justified (s ref : Seq) (l : List (Byte × Int × List Byte))
+    (h : listMutationsVsRefAA 1 s ref = some l) :
+    ∀ e ∈ l, Proofs.StatsMutAA.Justified Gen.standardcode s ref e := by
+  unfold listMutationsVsRefAA at h
+  rw [standard_code_defined] at h
+  have hn : ((1 : Nat) != NUCLEOTIDS) = false := rfl
+  by_cases hl : (s.length != ref.length) = true
+  · simp [hl] at h
+  · simp only [hl, hn, Bool.false_eq_true, if_false, Option.some.injEq] at h
+    subst h
+    have := Proofs.StatsMutAA.loop_justified Gen.standardcode s ref ref.length 0 0 (by simp [ungap])
+    simpa using this
+
+/-- **what an entry says**: the reference amino acid and the position of its window; the alternative is `-` only when
+the query has nothing but gaps in front of a reference codon, `/` only when the number of its residues there is not a
+multiple of 3, else the translation of its residues three by three - and that translation is not the reference amino
+acid alone (an unchanged codon is never listed) -/
+theorem aaEntry_reports_a_difference (code : List (List Byte × Byte)) (refaa : Byte) (allgaps : Bool) (pos : Int)
+    (q : Seq) (e : Byte × Int × List Byte) (he : e ∈ aaEntry code refaa allgaps pos q) :
+    e.1 = refaa ∧ e.2.1 = pos ∧
+    ((e.2.2 = [GAP] ∧ ungap q = [] ∧ allgaps = false) ∨
+     (e.2.2 = [47] ∧ (ungap q).length % 3 ≠ 0) ∨
+     (e.2.2 = codonsFrom code (ungap q) ∧ ungap q ≠ [] ∧ (ungap q).length % 3 = 0 ∧ e.2.2 ≠ [refaa])) :=
+  Proofs.StatsMutAA.aaEntry_mem code refaa allgaps pos q e he
+
+/-- an unchanged alignment lists nothing for a reference codon: the same residues in the window translate to the
+reference amino acid -/
+example : listMutationsVsRefAA 1 [65, 84, 71, 45, 45, 45, 71, 67, 65] [65, 84, 71, 45, 45, 45, 71, 67, 65] = some [] := by
+  decide
+
+/-- a substitution, an insertion of one codon after codon 0, a deletion and a frameshift; an insertion in front of the
+first codon carries the position −1 -/
+example : listMutationsVsRefAA 1 [65, 84, 65, 71, 71, 71, 45, 45, 45, 71, 67] [65, 84, 71, 45, 45, 45, 71, 67, 65, 71, 67] =
+    some [(77, 0, [73]), (45, 0, [71]), (65, 1, [45])] := by decide
+example : listMutationsVsRefAA 1 [65, 65, 65, 65, 84, 45] [45, 45, 45, 65, 84, 71] = some [(45, -1, [75]), (77, 0, [47])] := by decide
 
 /-! ## `MaxCharStats` / `Consensus` on the actual count entries of a column -/
 
